@@ -179,8 +179,20 @@ def run(ck, fb, fbd):
             pt = f.d["params"][0]["t"]
             txt = " ".join(estr(x) for b, i, x in f.tops())
             if "EH" in pt:
-                ok = txt.count("0.5") == 2 and "from_vertex()" in txt and "to_vertex()" in txt
-                (ck.ok if ok else lambda r, w, t: ck.violate(r, w, t, "C19.geom:barycenter_edge"))("C19.geom", f.where, "barycenter(edge) = 0.5*from + 0.5*to")
+                from .canon import Canon
+                cb = Canon(f)
+                rets_ = [cb.s(x.get("x")) for b, i, x in f.tops() if x.get("k") == "ret" and b in f.reach()]
+                r0 = rets_[0] if len(rets_) == 1 else ""
+                FROM, TO = r"vertex\(edge\(P0\)\.from_vertex\(\)\)", r"vertex\(edge\(P0\)\.to_vertex\(\)\)"
+                SUM = r"\((%s \+ %s|%s \+ %s)\)" % (FROM, TO, TO, FROM)
+                halved_sum = re.fullmatch(r"(\w+\()?\(?%s / 2(\.0)?\w*\)?\)?" % SUM, r0) or re.fullmatch(r"(\w+\()?\(?(%s \* 0\.5|0\.5 \* %s)\)?\)?" % (SUM, SUM), r0)
+                per_term = r0.count("0.5") == 2 and "from_vertex()" in r0 and "to_vertex()" in r0
+                if halved_sum:
+                    ck.ok("C19.geom", f.where, "barycenter(edge) = (from + to) / 2: the sum is formed before it is halved (exact on integer positions up to the final division)")
+                elif per_term:
+                    ck.violate("C19.geom", f.where, "barycenter(edge) halves the SUM of the end points: 0.5*from + 0.5*to truncates each term separately on integer position types ((1,1,1)-(3,1,5) gives (1,0,2))", "C19.geom:barycenter_edge")
+                else:
+                    ck.cannot_judge("C19.geom %s: barycenter(edge) is written in a form the rule does not know (%s) - not judged" % (f.where, r0[:90]))
             else:
                 circ = "hfv_iter" if "FH" in pt else "cv_iter"
                 it_ok = circ in txt
